@@ -1,0 +1,92 @@
+//go:build verif
+
+// Contracts for package state, read by /verif/govc (comment-only: no declarations, no effect on any build).
+
+package state
+
+//@ func (*State).SetHeightAndResetView
+//@   props C13
+//@   ensures [ok] result1 == nil ==> s.height == newHeight && newHeight > old(s.height) && s.view == 0
+//@   ensures [fail] result1 != nil ==> s.height == old(s.height) && s.view == old(s.view) && newHeight <= old(s.height)
+//@   ensures [ret.ok] result1 == nil ==> result0 != nil && result0.height == newHeight && result0.view == 0
+//@   ensures [ret.fail] result1 != nil ==> result0 != nil && result0.height == old(s.height) && result0.view == old(s.view)
+//@   ensures [lexmono] s.height > old(s.height) || (s.height == old(s.height) && s.view >= old(s.view))
+//@   ensures [reset] s.height > old(s.height) ==> s.view == 0
+
+//@ func (*State).SetView
+//@   props C13
+//@   ensures [ok] result1 == nil ==> s.view == newView && newView >= old(s.view) && s.height == old(s.height)
+//@   ensures [fail] result1 != nil ==> s.height == old(s.height) && s.view == old(s.view) && old(s.view) > newView
+//@   ensures [ret.ok] result1 == nil ==> result0 != nil && result0.height == old(s.height) && result0.view == newView
+//@   ensures [ret.fail] result1 != nil ==> result0 != nil && result0.height == old(s.height) && result0.view == old(s.view)
+//@   ensures [lexmono] s.height == old(s.height) && s.view >= old(s.view)
+
+//@ func (*State).Height
+//@   props C13
+//@   ensures [value] result == s.height && s.height == old(s.height) && s.view == old(s.view)
+
+//@ func (*State).View
+//@   props C13
+//@   ensures [value] result == s.view && s.height == old(s.height) && s.view == old(s.view)
+
+//@ func (*State).HeightView
+//@   props C13
+//@   ensures [snapshot] result != nil && result.height == s.height && result.view == s.view
+//@   ensures [frame] s.height == old(s.height) && s.view == old(s.view)
+
+//@ func (*HeightView).OlderThan
+//@   props C15 C13
+//@   ensures [lex] result == (hv.height < otherHv.height || (hv.height == otherHv.height && hv.view < otherHv.view))
+
+// ---- the context registry (C15) ----
+// ghost `cancelled` : set of cancel functions that have been invoked (declared in /verif/specs/00base.smt2)
+
+//@ dep field:state.contextWithCancel.cancel
+//@   modifies ghost:cancelled
+//@   ensures forall x int :: cancelled[x] == (old(cancelled[x]) || x == $fn)
+
+//@ func (*ViewContexts).For
+//@   props C15
+//@   requires hv != nil && w.parentCtxWithCancel != nil && w.hvToContext != nil
+//@   requires forall k HeightView :: has(w.hvToContext, k) && w.newestHvCanceledOlder != nil ==> !(k.height < w.newestHvCanceledOlder.height || (k.height == w.newestHvCanceledOlder.height && k.view < w.newestHvCanceledOlder.view))
+//@   ensures [inv.no-context-below-watermark] forall k HeightView :: has(w.hvToContext, k) && w.newestHvCanceledOlder != nil ==> !(k.height < w.newestHvCanceledOlder.height || (k.height == w.newestHvCanceledOlder.height && k.view < w.newestHvCanceledOlder.view))
+//@   ensures [err.iff] (result1 != nil) == (old(w.shutdown) || (old(w.newestHvCanceledOlder) != nil && (hv.height < old(w.newestHvCanceledOlder).height || (hv.height == old(w.newestHvCanceledOlder).height && hv.view < old(w.newestHvCanceledOlder).view))))
+//@   ensures [err.frame] result1 != nil ==> result0 == nil && (forall k HeightView :: has(w.hvToContext, k) == old(has(w.hvToContext, k)) && w.hvToContext[k] == old(w.hvToContext[k]))
+//@   ensures [ok.present] result1 == nil ==> has(w.hvToContext, deref(hv)) && w.hvToContext[deref(hv)] != nil && w.hvToContext[deref(hv)].ctx == result0
+//@   ensures [ok.existing-kept] result1 == nil && old(has(w.hvToContext, deref(hv))) ==> w.hvToContext[deref(hv)] == old(w.hvToContext[deref(hv)])
+//@   ensures [ok.created-child-of-parent] result1 == nil && !old(has(w.hvToContext, deref(hv))) ==> ctx_parent(result0) == w.parentCtxWithCancel.ctx
+//@   ensures [ok.others] forall k HeightView :: k != deref(hv) ==> has(w.hvToContext, k) == old(has(w.hvToContext, k)) && w.hvToContext[k] == old(w.hvToContext[k])
+//@   ensures [marks] w.shutdown == old(w.shutdown) && w.newestHvCanceledOlder == old(w.newestHvCanceledOlder)
+//@   ensures [no-cancel] forall x int :: cancelled[x] == old(cancelled[x])
+
+//@ func (*ViewContexts).CancelOlderThan
+//@   props C15
+//@   requires hv != nil && w.hvToContext != nil
+//@   requires forall k HeightView :: has(w.hvToContext, k) ==> w.hvToContext[k] != nil
+//@   requires forall k HeightView :: has(w.hvToContext, k) && w.newestHvCanceledOlder != nil ==> !(k.height < w.newestHvCanceledOlder.height || (k.height == w.newestHvCanceledOlder.height && k.view < w.newestHvCanceledOlder.view))
+//@   ensures [inv.no-context-below-watermark] forall k HeightView :: has(w.hvToContext, k) && w.newestHvCanceledOlder != nil ==> !(k.height < w.newestHvCanceledOlder.height || (k.height == w.newestHvCanceledOlder.height && k.view < w.newestHvCanceledOlder.view))
+//@   ensures [older-removed] forall k HeightView :: (k.height < hv.height || (k.height == hv.height && k.view < hv.view)) ==> !has(w.hvToContext, k)
+//@   ensures [older-cancelled] forall k HeightView :: old(has(w.hvToContext, k)) && (k.height < hv.height || (k.height == hv.height && k.view < hv.view)) ==> cancelled[old(w.hvToContext[k].cancel)]
+//@   ensures [others-kept] forall k HeightView :: !(k.height < hv.height || (k.height == hv.height && k.view < hv.view)) ==> has(w.hvToContext, k) == old(has(w.hvToContext, k)) && w.hvToContext[k] == old(w.hvToContext[k])
+//@   ensures [only-older-cancelled] forall x int :: cancelled[x] && !old(cancelled[x]) ==> (exists k HeightView :: old(has(w.hvToContext, k)) && (k.height < hv.height || (k.height == hv.height && k.view < hv.view)) && old(w.hvToContext[k].cancel) == x)
+//@   ensures [mark.max] w.newestHvCanceledOlder != nil && (w.newestHvCanceledOlder == hv || w.newestHvCanceledOlder == old(w.newestHvCanceledOlder))
+//@   ensures [mark.not-older-than-hv] !(w.newestHvCanceledOlder.height < hv.height || (w.newestHvCanceledOlder.height == hv.height && w.newestHvCanceledOlder.view < hv.view))
+//@   ensures [mark.monotone] old(w.newestHvCanceledOlder) != nil ==> !(w.newestHvCanceledOlder.height < old(w.newestHvCanceledOlder).height || (w.newestHvCanceledOlder.height == old(w.newestHvCanceledOlder).height && w.newestHvCanceledOlder.view < old(w.newestHvCanceledOlder).view))
+//@   ensures [shutdown-kept] w.shutdown == old(w.shutdown)
+//@   loop range w.hvToContext
+//@     invariant [only-deletions] forall k HeightView :: has(w.hvToContext, k) ==> old(has(w.hvToContext, k)) && w.hvToContext[k] == old(w.hvToContext[k])
+//@     invariant [only-older-deleted] forall k HeightView :: old(has(w.hvToContext, k)) && !has(w.hvToContext, k) ==> (k.height < hv.height || (k.height == hv.height && k.view < hv.view)) && cancelled[old(w.hvToContext[k].cancel)]
+//@     invariant [visited-older-gone] forall k HeightView :: visited(k) && (k.height < hv.height || (k.height == hv.height && k.view < hv.view)) ==> !has(w.hvToContext, k)
+//@     invariant [cancel-only-older] forall x int :: cancelled[x] && !old(cancelled[x]) ==> (exists k HeightView :: old(has(w.hvToContext, k)) && (k.height < hv.height || (k.height == hv.height && k.view < hv.view)) && old(w.hvToContext[k].cancel) == x)
+//@     invariant [frame] w.hvToContext == old(w.hvToContext) && w.shutdown == old(w.shutdown) && w.newestHvCanceledOlder == old(w.newestHvCanceledOlder)
+
+//@ func (*ViewContexts).Shutdown
+//@   props C15 C16
+//@   requires w.parentCtxWithCancel != nil
+//@   ensures [down] w.shutdown
+//@   ensures [parent-cancelled] cancelled[w.parentCtxWithCancel.cancel]
+
+//@ func NewViewContexts
+//@   props C15
+//@   ensures [fresh] result != nil && !result.shutdown && result.newestHvCanceledOlder == nil && result.hvToContext != nil && result.parentCtxWithCancel != nil
+//@   ensures [empty] forall k HeightView :: !has(result.hvToContext, k)
